@@ -44,6 +44,11 @@ Definition compose_ens (mshape : list nat) (mp_eps : F) (old_shape : list nat) (
          else pbind (collect (combine (ens_states e) (md_ps F (ens_prob_dist e)))) (fun '(ss, pp) => PRet (pp, ss)))
     (fun '(pp, ss) => pbind (md_new pp (old_shape ++ mshape)) (fun d => ens_init ss d (py_max mp_eps (ens_eps_zero e)))).
 
+(* _compose_qoperations_MProcess_State (mode_sampling = False): ONE state measured (weight 1.0); the ensemble's distribution carries
+   the instrument's own outcome shape — also when that shape is a multi-index (a composite instrument B o A has shape (m1, m2)) *)
+Definition compose_state (mshape : list nat) (mp_eps : F) (s : St) : pyres (ensemble F St) :=
+  pbind (meas s (c1 F)) (fun '(ss, pp) => pbind (md_new pp mshape) (fun d => ens_init ss d mp_eps)).
+
 (* the block an old entry is replaced by, as (state, probability) entries ([] when the oracle raises) *)
 Definition block_of (e : St * F) : list (St * F) :=
   match meas (fst e) (snd e) with PRet (ss, pp) => combine ss pp | PRaise _ => [] end.
